@@ -29,6 +29,7 @@ from fractions import Fraction
 import numpy as np
 
 from harness import pipeline, paired, mapcheck, trees, routing
+from harness.props import c17_keys
 
 E_KEY = 6          # Tree.E_KEY (KeyError)
 TREE_ERR = {'flat': 1, 'nolevel': 2, 'leaf': 3, 'invalid': 4}
@@ -859,8 +860,16 @@ def run(ctx):
                 'non-trivial = a pair on a tree with >= 2 levels; plus scenarios with 4-5 levels, a dropped middle level whose '
                 'child level is a parent level, parents of that child level with fewer query genes than min_markers in {2,3,5} '
                 'and ancestors with marker lists of their own (non-trivial = the log shows the borrowing from a proper '
-                'ancestor and a cell is routed through that parent)')
+                'ancestor and a cell is routed through that parent). '
+                '(iv) marker-table keys: real validate_marker_lookup on the really dropped tree with a table holding entries at '
+                'every level incl. the removed one (generator of C08) vs reduce + RunMappingKeys.rekey + '
+                'Markers.validate_marker_lookup (tag 1707), and the same real call without the entries of the removed level '
+                '(same outcome, same entries at the parents of the reduced tree); non-trivial = >= 3 levels and the removed '
+                'level has entries')
     ctx.assumptions += [
+        'marker-table keys: the code uses the strings level_name/node, which survive drop_level; the model uses positions in '
+        'the tree that is queried, the table of the file (stored positions) is translated by RunMappingKeys.rekey '
+        '(a name that is not a level of the reduced tree -> index >= its number of levels)',
         'level names are positions in the stored hierarchy; a drop_level name that is not in the hierarchy is an index >= the number of levels',
         'the marker cache and the bootstrapped vote are abstract in the theorems (any decision procedure that depends only on '
         'the reduced tree and the marker table); chunking, worker scheduling and re_order_blob are not part of RunMapping.v '
@@ -870,6 +879,7 @@ def run(ctx):
     ]
     function_part(ctx)
     election_part(ctx)
+    c17_keys.keys_part(ctx)
     pipeline_part(ctx)
 
 
